@@ -80,6 +80,7 @@ type Machine struct {
 	NondetV  []*Term // nondet variables in creation order
 	panicFrs []*frame
 	looseFmt int
+	callStack []*ssa.Function
 
 	// results of this path
 	Res *PathResult
@@ -136,6 +137,9 @@ func (m *Machine) end(kind, msg string) {
 func (m *Machine) unsupported(msg string) { m.end("unsupported", msg) }
 
 func (m *Machine) goPanicStr(msg string) {
+	if n := len(m.callStack); n > 0 {
+		msg += " [in " + m.callStack[n-1].String() + "]"
+	}
 	panic(&GoPanic{Val: Iface{T: m.P.RuntimeErr, V: ConcStr(msg, m.S)}, Runtime: true, Msg: msg})
 }
 
